@@ -592,3 +592,78 @@ M("C18", "walrus-chain-unlisted-stamp-falls-through", BC, "", "", "C18.R5",
   edits=_ver("        if (stamp := self.pe_export_stamp) and (text := PE_EXPORT_STAMP_TO_VERSION.get(stamp)):\n"
              "            return BeaconVersion(text)\n"
              "        return BeaconVersion.from_max_setting_enum(self.max_setting_enum)\n"))
+
+# ----------------------------------------------------------------------------------------------- wave 3
+# R3 EXIT: a candidate that is not reported must fall through to the next offset (prepended bytes may form earlier
+# candidates with a plausible e_lfanew but another Machine): no `return None` / break / raise for it inside the loop
+ARCH_ELSE_CONTINUE = ARCH_LOOP.replace(
+    "                    return \"x86\"\n",
+    "                    return \"x86\"\n                else:\n                    continue\n")
+MZ_FLAG_BREAK = (
+    "    start_offset = start_offset if start_offset is not None else fh.tell()\n"
+    "    found = None\n"
+    "    for offset in range(maxrange):\n"
+    "        fh.seek(start_offset + offset, io.SEEK_SET)\n"
+    "        try:\n"
+    "            mz = pestruct.IMAGE_DOS_HEADER(fh)\n"
+    "            if mz.e_lfanew > 0 and mz.e_lfanew < maxrange:\n"
+    "                fh.seek(start_offset + offset + 4 + mz.e_lfanew)\n"
+    "                image = pestruct.IMAGE_FILE_HEADER(fh)\n"
+    "                if image.Machine in (pestruct.IMAGE_FILE_MACHINE_AMD64, pestruct.IMAGE_FILE_MACHINE_I386):\n"
+    "                    found = start_offset + offset\n"
+    "                    break\n"
+    "        except EOFError:\n"
+    "            continue\n"
+    "    return found\n"
+)
+T("C18", "twin-arch-explicit-else-continue", PE, ARCH_LOOP, ARCH_ELSE_CONTINUE)
+T("C18", "twin-scanner-result-local-and-break", PE, MZ_LOOP, MZ_FLAG_BREAK)
+M("C18", "arch-unsupported-machine-returns-none-in-loop", PE, ARCH_LOOP, ARCH_ELSE_CONTINUE.replace("                    continue\n", "                    return None\n"), "C18.R3")
+M("C18", "one-sided-guard-breaks-instead-of-continue", PE, MZ_LOOP, MZ_GUARDS.replace("                continue\n            fh.seek(candidate + lfanew + 4)", "                break\n            fh.seek(candidate + lfanew + 4)"), "C18.R3")
+M("C18", "helper-gives-up-after-first-plausible-candidate", PE, "", "", "C18.R3", edits=_helper_edits(helper=HELPER.replace("            return where, machine\n", "            return where, machine\n        return None\n")))
+M("C18", "module-table-arch-get-returned-unguarded", PE, "", "", "C18.R3",
+  edits=_pe_table(ARCH_BY_MACHINE_PROXY, (ARCH_IF, "                return _ARCH_BY_MACHINE.get(image.Machine)\n"), proxy=True))
+M("C18", "arch-eof-at-file-header-ends-scan", PE, ARCH_LOOP, ARCH_LOOP.replace("        except EOFError:\n            continue\n", "        except EOFError:\n            return None\n"), "C18.R3")
+M("C18", "scanner-raises-on-unsupported-machine", PE, MZ_LOOP, MZ_LOOP.replace(
+    "                    return start_offset + offset\n",
+    "                    return start_offset + offset\n                raise ValueError(\"unsupported machine\")\n"), "C18.R3")
+# R5 ALIAS: the version follows the export stamp the object holds when it is asked (pe_export_stamp is a plain attribute
+# that BeaconConfig.from_file assigns after construction): a stored result must not be handed out again
+CACHE_FIELDS = "        self._raw_settings_by_index: Optional[Mapping[int, Any]] = None\n"
+VERSION_DEF = "    @property\n    def version(self) -> BeaconVersion:\n"
+VERSION_MEMO_LOCAL = (
+    "        cached = self._deduced\n"
+    "        if cached is not None:\n"
+    "            return cached\n"
+    "        stamp = self.pe_export_stamp\n"
+    "        cached = BeaconVersion.from_pe_export_stamp(stamp) if stamp else BeaconVersion.from_max_setting_enum(self.max_setting_enum)\n"
+    "        self._deduced = cached\n"
+    "        return cached\n"
+)
+VERSION_STORES_LAST = (
+    "        if self.pe_export_stamp:\n"
+    "            deduced = BeaconVersion.from_pe_export_stamp(self.pe_export_stamp)\n"
+    "        else:\n"
+    "            deduced = BeaconVersion.from_max_setting_enum(self.max_setting_enum)\n"
+    "        self._deduced = deduced\n"
+    "        return deduced\n"
+)
+STAMP_FIELD = "        self.pe_export_stamp: Optional[int] = None\n"
+STAMP_PROPERTY = (
+    "    @property\n"
+    "    def pe_export_stamp(self) -> Optional[int]:\n"
+    "        return self._pe_export_stamp\n"
+    "\n"
+    "    @pe_export_stamp.setter\n"
+    "    def pe_export_stamp(self, value: Optional[int]) -> None:\n"
+    "        self._pe_export_stamp = value\n"
+    "        self._deduced = None\n"
+    "\n"
+)
+T("C18", "twin-version-last-result-kept-but-recomputed", BC, "", "", edits=[(BC, CACHE_FIELDS, CACHE_FIELDS + "        self._deduced = None\n"), (BC, VERSION_PROP, VERSION_STORES_LAST)])
+T("C18", "twin-version-memo-reset-by-stamp-setter-not-decided", BC, "", "", edits=[
+    (BC, STAMP_FIELD, "        self._deduced = None\n        self._pe_export_stamp: Optional[int] = None\n"),
+    (BC, VERSION_DEF, STAMP_PROPERTY + VERSION_DEF), (BC, VERSION_PROP, VERSION_MEMO_LOCAL)])
+M("C18", "version-memoised-through-local", BC, "", "", "C18.R5", edits=[(BC, CACHE_FIELDS, CACHE_FIELDS + "        self._deduced = None\n"), (BC, VERSION_PROP, VERSION_MEMO_LOCAL)])
+M("C18", "version-cached-property", BC, VERSION_DEF, "    @functools.cached_property\n    def version(self) -> BeaconVersion:\n", "C18.R5")
+M("C18", "version-lru-cache-under-property", BC, VERSION_DEF, "    @property\n    @functools.lru_cache(maxsize=None)\n    def version(self) -> BeaconVersion:\n", "C18.R5")
